@@ -73,6 +73,9 @@ def run(res, replay=None):
             viol('reported loss is not the minimum over all runs', loss=m['loss'], loss_runs=m['loss_runs'])
         if abs(r['loss_at_params'] - m['loss']) > 1e-12 * max(1.0, abs(m['loss'])) + 1e-15:
             viol('reported loss is not the loss at the reported parameters', loss=m['loss'], loss_at_params=r['loss_at_params'])
+        if r.get('merged_dist_N0') is not None and r['merged_dist_N0'] != r['merged_params_N0']:
+            viol('after a merge the reported distribution is not built from the reported parameters (it had been read before the merge)',
+                 dist_N0=r['merged_dist_N0'], params_N0=r['merged_params_N0'], before=r['before_merge'], other=r['other'])
         if r['dist_inferred_N0'] != m['params']['N0']:
             viol('reported distribution is not built from the reported parameters', dist_N0=r['dist_inferred_N0'], params=m['params'])
         if r['again'] != m:
